@@ -111,7 +111,7 @@ main(int argc, char **argv)
   /* Open the <seqfile>: text mode, not digital */
   if (esl_opt_GetString(go, "--informat") != NULL) {
     infmt = esl_sqio_EncodeFormat(esl_opt_GetString(go, "--informat"));
-    if (infmt == eslSQFILE_UNKNOWN) cmdline_failure(argv[0], "%s is not a valid input sequence file format for --informat"); 
+    if (infmt == eslSQFILE_UNKNOWN) cmdline_failure(argv[0], "%s is not a valid input sequence file format for --informat\n", esl_opt_GetString(go, "--informat")); 
   }
   sq     = esl_sq_Create();
   status = esl_sqfile_Open(seqfile, infmt, NULL, &sqfp);
